@@ -21,6 +21,7 @@
 #include <mm/auto_ckpt.h>
 #include <mm/msg_allocator.h>
 #include <serial/serial.h>
+#include <verif_hooks.h>
 
 /// The flag used in ScheduleNewEvent() to keep track of silent execution
 static __thread bool silent_processing = false;
@@ -79,6 +80,7 @@ static inline void checkpoint_take(struct lp_ctx *lp)
 {
 	timer_uint t = timer_hr_new();
 	model_allocator_checkpoint_take(&lp->mm_state, array_count(lp->p.p_msgs));
+	VERIF_TRACE(VT_CKPT, lp - lps, array_count(lp->p.p_msgs), 0, 0);
 	stats_take(STATS_CKPT_SIZE, lp->mm_state.full_ckpt_size);
 	stats_take(STATS_CKPT, 1);
 	stats_take(STATS_CKPT_TIME, timer_hr_value(t));
@@ -120,6 +122,10 @@ void process_lp_fini(struct lp_ctx *lp)
 
 		bool remote = is_msg_remote(msg);
 		msg = unmark_msg(msg);
+#ifdef ROOTSIM_VERIF
+		if(!remote)
+			VERIF_TRACE(VT_FINI_ENTRY, lp - lps, msg, 0, 0);
+#endif
 		uint32_t flags = atomic_load_explicit(&msg->flags, memory_order_relaxed);
 		if(remote || !(flags & MSG_FLAG_ANTI))
 			msg_allocator_free(msg);
@@ -150,6 +156,7 @@ static inline void silent_execution(const struct lp_ctx *lp, array_count_t last_
 			msg = array_get_at(lp->p.p_msgs, ++last_i);
 
 		global_config.dispatcher(msg->dest, msg->dest_t, msg->m_type, msg->pl, msg->pl_size, state_p);
+		VERIF_TRACE(VT_SILENT, lp - lps, msg, 0, 0);
 		stats_take(STATS_MSG_SILENT, 1);
 	} while(++last_i < past_i);
 
@@ -173,11 +180,13 @@ static inline void send_anti_messages(struct process_ctx *proc_p, array_count_t 
 				msg = unmark_msg_remote(msg);
 				nid_t dest_nid = lid_to_nid(msg->dest);
 				mpi_remote_anti_msg_send(msg, dest_nid);
+				VERIF_TRACE(VT_ANTI, current_lp - lps, msg, 0, 1);
 				msg_allocator_free_at_gvt(msg);
 			} else {
 				msg = unmark_msg_sent(msg);
 				uint32_t f =
 				    atomic_fetch_add_explicit(&msg->flags, MSG_FLAG_ANTI, memory_order_relaxed);
+				VERIF_TRACE(VT_ANTI, current_lp - lps, msg, f, 0);
 				if(f & MSG_FLAG_PROCESSED)
 					msg_queue_insert(msg);
 			}
@@ -187,6 +196,7 @@ static inline void send_anti_messages(struct process_ctx *proc_p, array_count_t 
 		}
 
 		uint32_t f = atomic_fetch_add_explicit(&msg->flags, -MSG_FLAG_PROCESSED, memory_order_relaxed);
+		VERIF_TRACE(VT_UNDO, current_lp - lps, msg, f, 0);
 		if(!(f & MSG_FLAG_ANTI))
 			msg_queue_insert(msg);
 		stats_take(STATS_MSG_ROLLBACK, 1);
@@ -202,8 +212,12 @@ static inline void send_anti_messages(struct process_ctx *proc_p, array_count_t 
 static void do_rollback(struct lp_ctx *lp, array_count_t past_i)
 {
 	timer_uint t = timer_hr_new();
+#ifdef ROOTSIM_VERIF
+	array_count_t verif_cnt = array_count(lp->p.p_msgs);
+#endif
 	send_anti_messages(&lp->p, past_i);
 	array_count_t last_i = model_allocator_checkpoint_restore(&lp->mm_state, past_i);
+	VERIF_TRACE(VT_ROLLBACK, lp - lps, past_i, last_i, verif_cnt);
 	stats_take(STATS_RECOVERY_TIME, timer_hr_value(t));
 	stats_take(STATS_ROLLBACK, 1);
 	silent_execution(lp, last_i, past_i);
@@ -357,6 +371,7 @@ void process_msg(void)
 		return;
 	}
 
+	VERIF_TRACE(VT_EXTRACT, msg, verif_bits(msg->dest_t), 0, 0);
 	gvt_on_msg_extraction(msg->dest_t);
 
 	struct lp_ctx *lp = &lps[msg->dest];
@@ -369,6 +384,7 @@ void process_msg(void)
 	}
 
 	uint32_t flags = atomic_fetch_add_explicit(&msg->flags, MSG_FLAG_PROCESSED, memory_order_relaxed);
+	VERIF_TRACE(VT_PROC, msg, flags, lp - lps, 0);
 	if(unlikely(flags & MSG_FLAG_ANTI)) {
 		handle_anti_msg(lp, msg, flags);
 		lp->p.bound = unlikely(array_is_empty(lp->p.p_msgs)) ? -1.0 : lp->p.bound;
@@ -386,6 +402,7 @@ void process_msg(void)
 #endif
 
 	common_msg_process(lp, msg);
+	VERIF_TRACE(VT_FORWARD, lp - lps, msg, 0, 0);
 	lp->p.bound = msg->dest_t;
 	array_push(lp->p.p_msgs, msg);
 
